@@ -30,13 +30,18 @@ func WriteProgram(dir string, p *idl.Program, l *idl.Layout) (map[string]string,
 // Frontend is what thriftgo does before generating: parse recursively, include-cycle check,
 // semantic check, symbol resolution.  stage names the step that failed.
 func Frontend(mainPath string) (ast *parser.Thrift, stage string, err error) {
+	return FrontendInc(mainPath, nil)
+}
+
+// FrontendInc is Frontend with include search directories (-i).
+func FrontendInc(mainPath string, includeDirs []string) (ast *parser.Thrift, stage string, err error) {
 	defer func() {
 		if e := recover(); e != nil {
 			err = fmt.Errorf("PANIC in %s: %v", stage, e)
 		}
 	}()
 	stage = "parse"
-	ast, err = parser.ParseFile(mainPath, nil, true)
+	ast, err = parser.ParseFile(mainPath, includeDirs, true)
 	if err != nil {
 		return nil, stage, err
 	}
